@@ -70,7 +70,7 @@ Proof. destruct r as [[| | |] s]; reflexivity. Qed.
 Section Open.
   Variable lib : library.
   Variable rg : list val -> option string -> option string -> st -> R.
-  Variable rp : string -> option (list val) -> option string -> option string -> st -> R.
+  Variable rp : string -> option (list string) -> option (list val) -> option string -> option string -> st -> R.
 
   Notation run_step := (run_step rg rp).
   Notation run_steps := (run_steps rg rp).
@@ -463,7 +463,7 @@ Local Arguments poll : simpl never.
 Section Open2.
   Variable lib : library.
   Variable rg : list val -> option string -> option string -> st -> R.
-  Variable rp : string -> option (list val) -> option string -> option string -> st -> R.
+  Variable rp : string -> option (list string) -> option (list val) -> option string -> option string -> st -> R.
   Notation cond := (cond rg rp).
   Notation invoke := (invoke rg rp).
   Notation retry_iter := (retry_iter rg rp).
@@ -897,9 +897,9 @@ Qed.
 Section Invariant.
   Variable lib : library.
   Variable rg : list val -> option string -> option string -> st -> R.
-  Variable rp : string -> option (list val) -> option string -> option string -> st -> R.
+  Variable rp : string -> option (list string) -> option (list val) -> option string -> option string -> st -> R.
   Hypothesis Hrg : forall gs su fa, good (rg gs su fa).
-  Hypothesis Hrp : forall n gs su fa, good (rp n gs su fa).
+  Hypothesis Hrp : forall n pr gs su fa, good (rp n pr gs su fa).
 
   Ltac ext_step :=
     first [ assumption
@@ -941,13 +941,13 @@ Section Invariant.
     - set (s1 := match pa_args pa with Some ((_ :: _) as a) => set_ctx s (dict_update (ctx s) a) | _ => s end).
       assert (H1 : ext s0 s1).
       { unfold s1. destruct (pa_args pa) as [[|? ?]|]; auto using ext_set_ctx. }
-      pose proof (Hrp (pa_name pa) (pa_groups pa) (pa_success pa) (pa_failure pa) s0 s1 H1) as G.
-      destruct (rp _ _ _ _ s1) as [[|[n m e|sg]|c|] s2]; simpl in G |- *; auto;
+      pose proof (Hrp (pa_name pa) (pa_parse pa) (pa_groups pa) (pa_success pa) (pa_failure pa) s0 s1 H1) as G.
+      destruct (rp _ _ _ _ _ s1) as [[|[n m e|sg]|c|] s2]; simpl in G |- *; auto;
         destruct (pa_raise pa); auto.
     - set (child0 := mkst _ [] (trace s) (sleeps s) (next_eid s) (jit s)).
       assert (Hc : ext child0 child0) by apply ext_refl.
-      pose proof (Hrp (pa_name pa) (pa_groups pa) (pa_success pa) (pa_failure pa) child0 child0 Hc) as G.
-      destruct (rp _ _ _ _ child0) as [o child]. simpl in G.
+      pose proof (Hrp (pa_name pa) (pa_parse pa) (pa_groups pa) (pa_success pa) (pa_failure pa) child0 child0 Hc) as G.
+      destruct (rp _ _ _ _ _ child0) as [o child]. simpl in G.
       set (parent := mkst (ctx s) (stack s) (trace child) (sleeps child) (next_eid child) (jit s)).
       assert (Hp : ext s0 parent).
       { eapply ext_trans; [exact H|]. destruct G as (_ & (t & T) & (q & Q) & E & _).
@@ -984,6 +984,12 @@ Section Invariant.
     - (* clear *) unfold clear_step. apply ext_lift; [exact H|intros cfg].
       destruct cfg; simpl; auto using ext_set_ctx.
     - simpl. now apply ext_set_ctx.
+    - unfold merge_step. apply ext_lift; [exact H|intros _].
+      destruct (Merge.step_run true FUEL FUEL (ctx s)) as [[|n e|] m]; auto using ext_set_ctx.
+      apply ext_raise_new. now apply ext_set_ctx.
+    - unfold merge_step. apply ext_lift; [exact H|intros _].
+      destruct (Merge.step_run false FUEL FUEL (ctx s)) as [[|n e|] m]; auto using ext_set_ctx.
+      apply ext_raise_new. now apply ext_set_ctx.
     - now apply good_pype_step.
   Qed.
 
@@ -1161,37 +1167,64 @@ Section Invariant.
     destruct (run_failure lib rg rp (String a fg) s1) as [[|[n' m' e'|[| | |c|c]]|c|] s2]; exact G2.
   Qed.
 
-  Lemma good_run_pipeline_inner gs su fa : good (run_pipeline_inner rg gs su fa).
-  Proof.
-    intros s0 s H. unfold run_pipeline_inner.
-    match goal with |- ext _ (snd (match rg ?a ?b ?c s with _ => _ end)) =>
-      pose proof (Hrg a b c s0 s H) as G; destruct (rg a b c s) as [[|[n m e|[| | |c'|c']]|c'|] s1] end;
-      exact G.
-  Qed.
 End Invariant.
 
-(** push / run / pop-in-finally: whatever happens the call stack is restored *)
-Lemma good_load_and_run lib rg name gs su fa :
-  (forall gs su fa, good (rg gs su fa)) -> good (load_and_run lib rg name gs su fa).
+Lemma good_prepare_context parser parse : good (prepare_context parser parse).
 Proof.
-  intros Hrg s0 s H. unfold load_and_run. destruct (find _ lib); [|exact H].
+  intros s0 s H. unfold prepare_context. destruct parse as [args|]; [|exact H].
+  destruct parser; [|exact H]. apply ext_lift; [exact H|intros parsed].
+  destruct parsed as [[|kv d]|]; simpl; auto using ext_set_ctx.
+Qed.
+
+Lemma good_run_pipeline_inner rg rfail parser parse gs su fa :
+  (forall gs su fa, good (rg gs su fa)) -> (forall g, good (rfail g)) ->
+  good (run_pipeline_inner rg rfail parser parse gs su fa).
+Proof.
+  intros Hrg Hrf s0 s H. unfold run_pipeline_inner. cbv zeta.
+  match goal with |- context [if ?c then Some "on_failure" else fa] =>
+    set (fa' := if c then Some "on_failure" else fa) end.
+  pose proof (good_prepare_context parser parse s0 s H) as P.
+  destruct (prepare_context parser parse s) as [[|[n m e|sg]|c|] s1]; simpl in P |- *; auto.
+  - match goal with |- ext _ (snd (match rg ?a ?b ?c s1 with _ => _ end)) =>
+      pose proof (Hrg a b c s0 s1 P) as G; destruct (rg a b c s1) as [[|[n m e|[| | |c'|c']]|c'|] s2] end;
+      exact G.
+  - destruct fa' as [[|ch fg]|]; auto.
+    pose proof (Hrf (String ch fg) s0 s1 P) as G.
+    destruct (rfail (String ch fg) s1) as [[|[n' m' e'|[| | |c'|c']]|c'|] s2]; exact G.
+Qed.
+
+(** push / run / pop-in-finally: whatever happens the call stack is restored *)
+Lemma good_load_and_run lib rg rfail name parse gs su fa :
+  (forall gs su fa, good (rg gs su fa)) -> (forall g, good (rfail g)) ->
+  good (load_and_run lib rg rfail name parse gs su fa).
+Proof.
+  intros Hrg Hrf s0 s H. unfold load_and_run. destruct (find _ lib) as [[nm pl]|]; [|exact H].
   set (s' := set_stack s (name :: stack s)).
-  pose proof (good_run_pipeline_inner rg Hrg gs su fa s' s' (ext_refl s')) as G.
-  destruct (run_pipeline_inner rg gs su fa s') as [o s1]. simpl in G |- *.
+  pose proof (good_run_pipeline_inner rg rfail (has_parser pl) parse gs su fa Hrg Hrf s' s' (ext_refl s')) as G.
+  destruct (run_pipeline_inner rg rfail (has_parser pl) parse gs su fa s') as [o s1]. simpl in G |- *.
   destruct G as (S1 & (t & T) & (q & Q) & E & J).
   eapply ext_trans; [exact H|]. unfold s' in *. simpl in *.
   repeat split; simpl; try lia; eauto. now rewrite S1.
 Qed.
 
-Theorem good_run_groups fuel lib : forall gs su fa, good (run_groups fuel lib gs su fa).
+Theorem good_run_groups_pipe fuel lib :
+  (forall gs su fa, good (run_groups fuel lib gs su fa)) /\
+  (forall name parse gs su fa, good (run_pipe fuel lib name parse gs su fa)).
 Proof.
-  induction fuel as [|f IH]; intros gs su fa; [intros s0 s H; exact H|].
-  simpl. apply good_groups_body; [exact IH|].
-  intros n gs' su' fa'. now apply good_load_and_run.
+  induction fuel as [|f [IHg IHp]].
+  - split; intros; intros s0 s H; exact H.
+  - split.
+    + intros gs su fa. simpl. apply good_groups_body; assumption.
+    + intros name parse gs su fa. simpl. apply good_load_and_run; [exact IHg|].
+      intros g. apply good_run_failure; assumption.
 Qed.
 
-Theorem good_run_pipeline fuel lib name gs su fa : good (run_pipeline fuel lib name gs su fa).
-Proof. apply good_load_and_run. apply good_run_groups. Qed.
+Theorem good_run_groups fuel lib : forall gs su fa, good (run_groups fuel lib gs su fa).
+Proof. apply good_run_groups_pipe. Qed.
+
+Theorem good_run_pipeline fuel lib name parse gs su fa :
+  good (run_pipeline fuel lib name parse gs su fa).
+Proof. unfold run_pipeline. apply good_run_groups_pipe. Qed.
 
 (** * The truth rule (C04) *)
 Lemma cast_str_to_bool_spec x :
@@ -1227,7 +1260,7 @@ Proof. intros H. unfold as_bool. now rewrite H. Qed.
 Section Pipes.
   Variable lib : library.
   Variable rg : list val -> option string -> option string -> st -> R.
-  Variable rp : string -> option (list val) -> option string -> option string -> st -> R.
+  Variable rp : string -> option (list string) -> option (list val) -> option string -> option string -> st -> R.
 
   Definition effective_groups (groups : option (list val)) : list val :=
     match groups with None | Some [] => [VStr "steps"] | Some g => g end.
@@ -1238,17 +1271,55 @@ Section Pipes.
   Definition defaulted (groups : option (list val)) (su fa : option string) : bool :=
     (match groups with None | Some [] => true | _ => false end) && none_or_empty su && none_or_empty fa.
 
-  Lemma run_pipeline_inner_unfold groups su fa s :
-    run_pipeline_inner rg groups su fa s =
-    match rg (effective_groups groups)
-             (if defaulted groups su fa then Some "on_success" else su)
-             (if defaulted groups su fa then Some "on_failure" else fa) s with
-    | (ORaise (RSig SStopPipeline), s1) => (OOk, s1)
+  Variable rfail : string -> st -> R.
+
+  Lemma run_pipeline_inner_unfold parser parse groups su fa s :
+    run_pipeline_inner rg rfail parser parse groups su fa s =
+    match prepare_context parser parse s with
+    | (OOk, s0) =>
+        match rg (effective_groups groups)
+                 (if defaulted groups su fa then Some "on_success" else su)
+                 (if defaulted groups su fa then Some "on_failure" else fa) s0 with
+        | (ORaise (RSig SStopPipeline), s1) => (OOk, s1)
+        | r => r
+        end
+    | (ORaise (RExn n m e), s0) =>
+        match (if defaulted groups su fa then Some "on_failure" else fa) with
+        | Some (String _ _ as fg) =>
+            match rfail fg s0 with
+            | (ORaise (RSig SStopStepGroup), s1) | (OOk, s1) => (ORaise (RExn n m e), s1)
+            | (ORaise (RSig SStopPipeline), s1) => (OOk, s1)
+            | r => r
+            end
+        | _ => (ORaise (RExn n m e), s0)
+        end
     | r => r
     end.
   Proof.
     unfold run_pipeline_inner, effective_groups, defaulted, none_or_empty.
     destruct groups as [[|g gs]|]; reflexivity.
+  Qed.
+
+  (** the context parser runs only when asked to, and only if the pipeline has one *)
+  Lemma prepare_context_skipped parser s : prepare_context parser None s = (OOk, s).
+  Proof. reflexivity. Qed.
+
+  Lemma prepare_context_no_parser parse s : prepare_context false parse s = (OOk, s).
+  Proof. destruct parse; reflexivity. Qed.
+
+  (** a failing context parser: the failure group runs once, on the untouched context, and
+      the parser's own error is what the caller receives *)
+  Lemma run_pipeline_inner_parser_fails parser parse groups su fa s n m e s0 fg :
+    prepare_context parser parse s = (ORaise (RExn n m e), s0) ->
+    (if defaulted groups su fa then Some "on_failure" else fa) = Some fg -> fg <> "" ->
+    run_pipeline_inner rg rfail parser parse groups su fa s =
+    match rfail fg s0 with
+    | (ORaise (RSig SStopStepGroup), s1) | (OOk, s1) => (ORaise (RExn n m e), s1)
+    | (ORaise (RSig SStopPipeline), s1) => (OOk, s1)
+    | r => r
+    end.
+  Proof.
+    intros Hp Hf Hne. rewrite run_pipeline_inner_unfold, Hp, Hf. destruct fg; [congruence|reflexivity].
   Qed.
 
   (** StopPipeline ends only the current pipeline; Stop passes through *)
@@ -1258,9 +1329,10 @@ Section Pipes.
        (if defaulted groups su fa then Some "on_success" else su)
        (if defaulted groups su fa then Some "on_failure" else fa)
        (set_stack s (name :: stack s)) = (ORaise (RSig SStopPipeline), s1) ->
-    load_and_run lib rg name groups su fa s = (OOk, set_stack s1 (tl (stack s1))).
+    load_and_run lib rg rfail name None groups su fa s = (OOk, set_stack s1 (tl (stack s1))).
   Proof.
-    intros Hf Hr. unfold load_and_run. rewrite Hf, run_pipeline_inner_unfold, Hr. reflexivity.
+    intros Hf Hr. unfold load_and_run. rewrite Hf. destruct pl as [nm pl'].
+    rewrite run_pipeline_inner_unfold, prepare_context_skipped, Hr. reflexivity.
   Qed.
 
   Lemma load_and_run_stop name pl groups su fa s s1 :
@@ -1269,9 +1341,10 @@ Section Pipes.
        (if defaulted groups su fa then Some "on_success" else su)
        (if defaulted groups su fa then Some "on_failure" else fa)
        (set_stack s (name :: stack s)) = (ORaise (RSig SStop), s1) ->
-    load_and_run lib rg name groups su fa s = (ORaise (RSig SStop), set_stack s1 (tl (stack s1))).
+    load_and_run lib rg rfail name None groups su fa s = (ORaise (RSig SStop), set_stack s1 (tl (stack s1))).
   Proof.
-    intros Hf Hr. unfold load_and_run. rewrite Hf, run_pipeline_inner_unfold, Hr. reflexivity.
+    intros Hf Hr. unfold load_and_run. rewrite Hf. destruct pl as [nm pl'].
+    rewrite run_pipeline_inner_unfold, prepare_context_skipped, Hr. reflexivity.
   Qed.
 
   (** ** pype *)
@@ -1291,7 +1364,7 @@ Section Pipes.
   Lemma pype_step_own_context s pa :
     get_arguments s = Ok pa -> pa_use_parent pa = false ->
     pype_step rp s =
-    (let '(o, child) := rp (pa_name pa) (pa_groups pa) (pa_success pa) (pa_failure pa)
+    (let '(o, child) := rp (pa_name pa) (pa_parse pa) (pa_groups pa) (pa_success pa) (pa_failure pa)
                            (child_start pa s) in
      let parent := back_in_parent s child in
      pype_guard pa
@@ -1316,7 +1389,7 @@ Section Pipes.
   Lemma pype_step_shared_context s pa :
     get_arguments s = Ok pa -> pa_use_parent pa = true ->
     pype_step rp s =
-    pype_guard pa (rp (pa_name pa) (pa_groups pa) (pa_success pa) (pa_failure pa)
+    pype_guard pa (rp (pa_name pa) (pa_parse pa) (pa_groups pa) (pa_success pa) (pa_failure pa)
                       (match pa_args pa with
                        | Some ((_ :: _) as a) => set_ctx s (dict_update (ctx s) a)
                        | _ => s
@@ -1353,7 +1426,7 @@ Section Pipes.
     sget key (ctx (snd (pype_step rp s))) = sget key (ctx s).
   Proof.
     intros Ha Hu Hout. rewrite (pype_step_own_context s pa Ha Hu).
-    destruct (rp _ _ _ _ (child_start pa s)) as [o child]. cbv zeta.
+    destruct (rp _ _ _ _ _ (child_start pa s)) as [o child]. cbv zeta.
     rewrite pype_guard_ctx.
     destruct o; try reflexivity.
     destruct (pa_out pa) as [out|] eqn:Eo; try reflexivity.
@@ -1382,7 +1455,7 @@ Section Pipes.
     stack (snd (pype_step rp s)) = stack s.
   Proof.
     intros Ha Hu. rewrite (pype_step_own_context s pa Ha Hu).
-    destruct (rp _ _ _ _ (child_start pa s)) as [o child]. cbv zeta.
+    destruct (rp _ _ _ _ _ (child_start pa s)) as [o child]. cbv zeta.
     rewrite pype_guard_stack.
     destruct o; try reflexivity.
     destruct (pa_out pa) as [out|]; try reflexivity.
@@ -1406,17 +1479,27 @@ End Pipes.
 
 (** Stop of any kind is caught at the root and the API reports success *)
 Lemma api_run_stop fuel lib name d gs su fa j s1 sg :
-  run_pipeline fuel lib name gs su fa (mkst d [] [] [] 0 j) = (ORaise (RSig sg), s1) ->
+  run_pipeline fuel lib name None gs su fa (mkst d [] [] [] 0 j) = (ORaise (RSig sg), s1) ->
   (sg = SStop \/ sg = SStopPipeline \/ sg = SStopStepGroup) ->
   api_run fuel lib name d gs su fa j = (OOk, s1).
-Proof. intros H [-> | [-> | ->]]; unfold api_run; now rewrite H. Qed.
+Proof. intros H [-> | [-> | ->]]; unfold api_run, api_run_args, api_parse; simpl; now rewrite H. Qed.
 
 Lemma api_run_ok fuel lib name d gs su fa j s1 :
-  run_pipeline fuel lib name gs su fa (mkst d [] [] [] 0 j) = (OOk, s1) ->
+  run_pipeline fuel lib name None gs su fa (mkst d [] [] [] 0 j) = (OOk, s1) ->
   api_run fuel lib name d gs su fa j = (OOk, s1).
-Proof. intros H. unfold api_run. now rewrite H. Qed.
+Proof. intros H. unfold api_run, api_run_args, api_parse; simpl. now rewrite H. Qed.
 
 Lemma api_run_error fuel lib name d gs su fa j s1 n m e :
-  run_pipeline fuel lib name gs su fa (mkst d [] [] [] 0 j) = (ORaise (RExn n m e), s1) ->
+  run_pipeline fuel lib name None gs su fa (mkst d [] [] [] 0 j) = (ORaise (RExn n m e), s1) ->
   api_run fuel lib name d gs su fa j = (ORaise (RExn n m e), s1).
-Proof. intros H. unfold api_run. now rewrite H. Qed.
+Proof. intros H. unfold api_run, api_run_args, api_parse; simpl. now rewrite H. Qed.
+
+(** the API runs the pipeline's parser unless a dict was supplied without arguments *)
+Lemma api_parse_table args dict_none :
+  api_parse args dict_none =
+  match args, dict_none with
+  | Some ((_ :: _) as a), _ => Some a
+  | _, true => Some []
+  | _, false => None
+  end.
+Proof. destruct args as [[|x a]|], dict_none; reflexivity. Qed.
